@@ -48,10 +48,11 @@ import (
 	"github.com/eclipse/paho.mqtt.golang/packets"
 	"github.com/emitter-io/emitter/internal/network/mqtt"
 	"github.com/emitter-io/emitter/internal/verifx/engine/core"
+	"github.com/emitter-io/emitter/internal/verifx/engine/sched"
 )
 
 func init() {
-	core.Register(&core.Check{ID: "C16", Level: "exploration", Run: run, Replay: replay})
+	core.Register(&core.Check{ID: "C16", Level: "exploration", Run: run, Replay: replay, Worker: schedWorker})
 }
 
 const (
@@ -1395,6 +1396,13 @@ func run(c *core.Ctx) {
 	c.Assume("emitter's Connack has no session-present field: 0 is required on emission, the flag is not compared when decoding")
 	c.Assume("byte contents are fixed patterns (UTF-8 text for string fields, arbitrary bytes incl. 0x00/0xff for payload, will message, password); other contents are not explored")
 	c.Set("reference_inapplicable_by_kind", inapplicable)
+	schedBound := 2
+	if !c.Quick() {
+		schedBound = 3
+	}
+	c.Set("sched_bound_completed", sched.Drive(c, []string{"codec"}, schedBound))
+	c.Set("sched_schedules", c.Count("schedules"))
+	c.Assume("concurrent use of the codec: statement-level, sequentially consistent interleavings of two connections")
 	c.Set("evaluations", c.Count("evaluations"))
 	c.Set("distinct_nontrivial", c.DistinctCount("nontrivial"))
 	bound := "thorough: CONNECT = full product of lengths over all present fields"
@@ -1416,7 +1424,16 @@ func samples(seed int64) []pkt {
 	}
 }
 
+func schedWorker(c *core.Ctx, args []string) {
+	if len(args) > 0 && args[0] == "sched" {
+		sched.WorkerMain(c, concScenarios(), args[1:])
+	}
+}
+
 func replay(c *core.Ctx, raw json.RawMessage) {
+	if sched.ReplayCase(c, concScenarios(), raw) {
+		return
+	}
 	var p pkt
 	if err := json.Unmarshal(raw, &p); err != nil || typeCode[p.T] == 0 {
 		fmt.Println("c16: unreadable case:", err)
